@@ -19,7 +19,7 @@ import (
 
 func c02Config() world.Config {
 	return world.Config{
-		Accounts: []string{"U", "H"},
+		Accounts: []string{"U", "H", "H2"},
 		Storage:  func(p *storagetypes.Params) { p.CollateralPrice = 1000; p.CheckWindow = 1000 },
 	}
 }
@@ -27,6 +27,7 @@ func c02Config() world.Config {
 func c02Setup(env world.Env) {
 	w := env.W()
 	mustOK(env.Deliver(storagetypes.NewMsgInitProvider(w.A("H").Bech, "https://honest.provider.com", 1_000_000_000, "kb")), "InitProvider")
+	mustOK(env.Deliver(storagetypes.NewMsgInitProvider(w.A("H2").Bech, "https://second.holder.net", 1_000_000_000, "kb")), "InitProvider")
 	u := w.A("U").Bech
 	mustOK(env.Deliver(storagetypes.NewMsgBuyStorage(u, u, 720, 1_000_000_000, "ujkl")), "BuyStorage")
 }
@@ -195,6 +196,103 @@ func c02WindowCase(I, W, s, j int64, windows int, repost bool) mc.Case {
 	return c
 }
 
+// (3) two files whose proof windows are out of phase, each with its own honest prover: what a reward block decides about
+// one file's prover must not depend on the other file
+var c02WinFile2 = mkFile(seqBytes(12, 77), 4)
+
+func c02TwoFileCase(I, W, s, d int64, swap bool, windows int) mc.Case {
+	c := mc.Case{Desc: fmt.Sprintf("twofiles|I=%d|W=%d|start=%d|phase=+%d|swap=%v", I, W, s, d, swap)}
+	files := []*sfile{c02WinFile, c02WinFile2}
+	if swap {
+		files = []*sfile{c02WinFile2, c02WinFile}
+	}
+	starts := []int64{s, s + d}
+	holders := []string{"H", "H2"}
+	c.Prep = func(env world.Env) {
+		w := env.W()
+		setStorageParams(env, func(p *storagetypes.Params) { p.ChunkSize, p.ProofWindow, p.CheckWindow = 4, I, W })
+		u := w.A("U").Bech
+		for i := range files {
+			for env.Ctx().BlockHeight() < starts[i] {
+				if bp := env.NextBlock(6 * time.Second); bp != nil {
+					panic(bp.Value)
+				}
+			}
+			mustOK(env.Deliver(storagetypes.NewMsgPostFile(u, files[i].merkle, int64(len(files[i].data)), 0, 0, 1, "{}")), "PostFile")
+			item, hl := files[i].proofFor(0)
+			if ok, e := postProofOK(w, env.Deliver(storagetypes.NewMsgPostProof(w.A(holders[i]).Bech, files[i].merkle, u, starts[i], item, hl, 0))); !ok {
+				panic("join proof rejected: " + e)
+			}
+		}
+	}
+	var rec func(cur []string)
+	rec = func(cur []string) {
+		if len(cur) == windows {
+			c.Subs = append(c.Subs, strings.Join(cur, ","))
+			return
+		}
+		for o := int64(0); o < I; o++ {
+			rec(append(append([]string{}, cur...), fmt.Sprint(o)))
+		}
+	}
+	rec(nil)
+	c.Sub = func(env world.Env, sub string) mc.CaseResult {
+		w := env.W()
+		cr := mc.CaseResult{Class: "kept", Nontrivial: true}
+		u := w.A("U").Bech
+		var offs []int64
+		for _, x := range strings.Split(sub, ",") {
+			var o int64
+			fmt.Sscan(x, &o)
+			offs = append(offs, o)
+		}
+		proveAt := []map[int64]bool{{}, {}}
+		for i := range files {
+			for k, o := range offs {
+				proveAt[i][starts[i]+int64(k+1)*I+o] = true
+			}
+		}
+		last := starts[1] + int64(len(offs)+2)*I - 1
+		burn0 := []int64{0, 0}
+		for i, hname := range holders {
+			burn0[i], _ = burnOf(w, env.Ctx(), hname)
+		}
+		for env.Ctx().BlockHeight() < last {
+			if bp := env.NextBlock(6 * time.Second); bp != nil {
+				cr.Viols = append(cr.Viols, viol("no-panic", "block-panic", "%s", bp.Value))
+				return cr
+			}
+			ht := env.Ctx().BlockHeight()
+			for i, f := range files {
+				h := w.A(holders[i]).Bech
+				if ht > starts[i]+int64(len(offs)+2)*I-1 {
+					continue // past the windows this prover was scheduled for
+				}
+				file, found := getFile(w, env.Ctx(), f.merkle, u, starts[i])
+				if !found || !proverListed(file, h) {
+					cr.Class = "dropped"
+					cr.Viols = append(cr.Viols, viol("honest-prover-never-removed", "removed two-files", "two files (starts %d and %d, proof window %d, check window %d), proofs at offsets %s: the prover of file %d was removed by the block at height %d", starts[0], starts[1], I, W, sub, i, ht))
+					return cr
+				}
+				if b, _ := burnOf(w, env.Ctx(), holders[i]); b != burn0[i] {
+					cr.Viols = append(cr.Viols, viol("honest-prover-never-burned", "burned two-files", "prover of file %d: burn counter %d -> %d at height %d", i, burn0[i], b, ht))
+					return cr
+				}
+				if proveAt[i][ht] {
+					pr, _ := w.App.StorageKeeper.GetProof(env.Ctx(), h, f.merkle, u, starts[i])
+					item, hl := f.proofFor(int(pr.ChunkToProve))
+					if ok, e := postProofOK(w, env.Deliver(storagetypes.NewMsgPostProof(h, f.merkle, u, starts[i], item, hl, pr.ChunkToProve))); !ok {
+						cr.Viols = append(cr.Viols, viol("honest-proof-accepted", "rejected-in-window two-files", "file %d, height %d: %s", i, ht, e))
+						return cr
+					}
+				}
+			}
+		}
+		return cr
+	}
+	return c
+}
+
 func c02Enum(thorough bool) mc.Enum {
 	e := mc.Enum{Prop: "C02", Name: "C02/honest-prover", Cfg: c02Config(), Setup: c02Setup, ConfirmB: true, ConfB: 40}
 	for _, chunk := range []int64{1, 2, 3, 4, 5, 8} {
@@ -221,13 +319,24 @@ func c02Enum(thorough bool) mc.Enum {
 			}
 		}
 	}
+	for _, I := range []int64{2, 3} {
+		for _, W := range []int64{2, 3, 5} {
+			for s := int64(2); s < 2+W; s++ {
+				for d := int64(1); d < I; d++ {
+					for _, swap := range []bool{false, true} {
+						e.Cases = append(e.Cases, c02TwoFileCase(I, W, s, d, swap, windows))
+					}
+				}
+			}
+		}
+	}
 	return e
 }
 
 func init() {
 	CaseReplayers["C02/honest-prover"] = func(r *mc.Run, c string) { r.ReplayCase(c02Enum(true), c) }
 	Props["C02"] = Prop{Level: "exploration", Run: func(r *mc.Run, tier string) {
-		r.Rules = append(r.Rules, "(1) every file size 1..4c+1 for chunk size c in {1,2,3,4,5,8} (tree cross-checked with utils.BuildTree) x 64 consecutive challenge seeds (block gas) x 3 prove/re-challenge rounds on the real PostFile/PostProof; (2) proof window I in {2,3} (thorough {2,3,4,5}) x check window W in {2,3,4,5,7} x every file start phase x every join height in the first window x every placement vector of one proof per window over 3 (thorough 4) windows, one block at a time through the whole application's BeginBlocker/EndBlocker; one evaluation = one (configuration, seed or placement vector) execution")
+		r.Rules = append(r.Rules, "(1) every file size 1..4c+1 for chunk size c in {1,2,3,4,5,8} (tree cross-checked with utils.BuildTree) x 64 consecutive challenge seeds (block gas) x 3 prove/re-challenge rounds on the real PostFile/PostProof; (2) proof window I in {2,3} (thorough {2,3,4,5}) x check window W in {2,3,4,5,7} x every file start phase x every join height in the first window x every placement vector of one proof per window over 3 (thorough 4) windows, one block at a time through the whole application's BeginBlocker/EndBlocker; (3) two files with out-of-phase proof windows (every phase difference, both walk orders), each with its own honest prover on the same schedules; one evaluation = one (configuration, seed or placement vector) execution")
 		r.Assumptions = append(r.Assumptions, "behaviour of the window predicates depends only on (h-start) mod I and h mod W, so one period of start phases covers every phase relation", "SHA-256/SHA3 collision freedom")
 		dl := time.Now().Add(70 * time.Second)
 		if tier == "thorough" {
